@@ -133,9 +133,10 @@ Section Event.
     { rewrite <- ev_pending0. unfold activate in Hin. destruct (q_bump t (pending dr0)) as [wk rest] eqn:Eb. cbn [fst] in Hin.
       destruct (q_bump_spec _ _ _ _ Eb) as (-> & _). apply in_or_app. left; exact Hin. }
     assert (Hne : es <> []) by (intros E; rewrite E in Hid; contradiction).
-    destruct (Hwake d es Hp Hne) as (w0 & Hw0 & _ & Hw0d). pose proof (ev_sched_ge w0 Hw0) as Htw.
     assert (Hid' : In id (ents_at d (pending (drv_of w m)))) by (rewrite (in_ents_at _ _ _ (mid_sorted _ _ Hmid) Hp); exact Hid).
     destruct (Htask d id Hid') as (k & tk & s & Hk & Hbl & Hm & _ & E1 & E2).
+    assert (Hfin : d < TMAX) by (rewrite <- E2; exact (base_blocked_fin _ _ _ _ _ _ _ (pe_base _ _ _ _ _ _ _ HP) Hk Hbl)).
+    destruct (Hwake d es Hp Hne Hfin) as (w0 & Hw0 & _ & Hw0d). pose proof (ev_sched_ge w0 Hw0) as Htw.
     exists k, tk, s. repeat split; try assumption; [lia|].
     rewrite <- E1. exact (proj2 (b_ids _ _ _ _ (pe_base _ _ _ _ _ _ _ HP) k tk s Hk Hbl)).
   Qed.
@@ -419,7 +420,7 @@ Proof.
   pose proof (ev_minv1 ts0 later w t m spawn fire HP) as Hm1.
   pose proof (ev_woken ts0 later w t m spawn fire HP) as Hwoken.
   pose proof (ev_pre ts0 later w t m spawn fire HP) as Hpre.
-  destruct (pe_drv _ _ _ _ _ _ _ HP m (pe_m _ _ _ _ _ _ _ HP)) as (l & _ & [Hmidl _] & _ & _ & ([_ _ _ Hcov] & Hnl & Hal)).
+  destruct (pe_drv _ _ _ _ _ _ _ HP m (pe_m _ _ _ _ _ _ _ HP)) as (l & _ & [Hmidl _] & _ & [_ Htask0] & ([_ _ _ Hcov] & Hnl & Hal)).
   unfold module_event.
   set (dr0 := if fire then sched_fire t (drv_of w m) else drv_of w m) in *.
   assert (Hp0 : pending dr0 = pending (drv_of w m)) by (unfold dr0; destruct fire; reflexivity).
@@ -485,7 +486,13 @@ Proof.
     { revert Ed. unfold deactivate, q_next. cbn [d1 pending next_wakeup]. rewrite Hrest, Hn0.
       rewrite ?(prune_alllive (pending (drv_of w m)) Hal).
       destruct (pending (drv_of w m)) as [|[d0 es0] r] eqn:Epd; cbn [front_time]; [intros H; injection H as _ <-; reflexivity|].
-      destruct (Hcov d0 es0) as (x & Hx' & _ & _ & Hxd); [left; reflexivity|apply (Hal d0 es0); rewrite Epd; left; reflexivity|].
+      assert (Hne0 : es0 <> []) by (apply (Hal d0 es0); rewrite Epd; left; reflexivity).
+      assert (Hfin0 : d0 < TMAX).
+      { destruct es0 as [|id0 es0']; [contradiction Hne0; reflexivity|].
+        assert (Hid0 : In id0 (ents_at d0 ((d0, id0 :: es0') :: r))) by (cbn [ents_at]; rewrite N.eqb_refl; left; reflexivity).
+        destruct (Htask0 d0 id0 Hid0) as (k0 & tk0 & s0 & Hk0 & Hbl0 & _ & _ & _ & E0).
+        rewrite <- E0. exact (base_blocked_fin _ _ _ _ _ _ _ (pe_base _ _ _ _ _ _ _ HP) Hk0 Hbl0). }
+      destruct (Hcov d0 es0) as (x & Hx' & _ & _ & Hxd); [left; reflexivity|exact Hne0|exact Hfin0|].
       rewrite Hx'. assert (Htx : t < x).
       { pose proof (Hnl x Hx') as Hne. pose proof (ents_at_in _ _ Hne) as Hin. rewrite Epd in Hin. exact (Hfut _ _ Hin). }
       replace (x <=? t) with false by lia. unfold earlier. replace (d0 <? x) with false by lia.
